@@ -1655,6 +1655,17 @@ fn pids_of(pkts: &[Vec<u8>]) -> Vec<u16> {
     v.sort(); v.dedup(); v
 }
 
+/// `k` previously unseen PIDs in a row (each one packet), then a second pass over the same PIDs: a
+/// dispatcher that bounds, batches or forgets handler requests per buffer shows up here
+/// (seeded change C07-r13m3: at most 64 new PIDs per `push`)
+fn many_pid_stream(r: &Rng, k: usize) -> Vec<Vec<u8>> {
+    let base = 0x20 + r.below(0x1000) as usize;
+    let pids: Vec<u16> = (0..k).map(|i| (base + (i * 7) % k) as u16).collect();
+    let mut pkts: Vec<Vec<u8>> = pids.iter().map(|&p| mk_pkt(r, p, false, 0, &r.bytes(184), false)).collect();
+    for &p in pids.iter().take(k.min(80)) { pkts.push(mk_pkt(r, p, false, 1, &r.bytes(184), false)); }
+    pkts
+}
+
 fn gen_c06(tier: &str, r: &Rng, o: &mut Out<'_>) {
     let n = if tier == "thorough" { 80_000 } else { 3_000 };
     for i in 0..n {
@@ -1675,6 +1686,12 @@ fn gen_c06(tier: &str, r: &Rng, o: &mut Out<'_>) {
         pkts.push(mk_pkt(r, 0x201, false, 0, &r.bytes(184), false));
         emit(o, true, "b0t0", &[concat(&pkts)]);
     } } }
+    // many unannounced PIDs in one buffer (and the same stream cut up)
+    for &k in if tier == "thorough" { &[33usize, 64, 65, 66, 130, 257, 300, 1000][..] } else { &[65usize, 130, 300][..] } {
+        let pkts = many_pid_stream(r, k);
+        emit(o, true, "b0t0", &[concat(&pkts)]);
+        emit(o, true, "b0t0", &rand_pushes(r, &pkts));
+    }
     mixed_scenarios(tier, r, o, "C06");
     o.meta("plans", "random PID mixes (run lengths 1..30, PIDs incl. 0, 1, 0x1fff), TEI x scrambling exhaustive, bad sync bytes, scripted changes inside runs");
 }
@@ -1704,6 +1721,12 @@ fn gen_c18(tier: &str, r: &Rng, o: &mut Out<'_>) {
         emit(o, true, cfg, &[concat(&pk)]);
         let pushes: Vec<Vec<u8>> = pk.clone();
         emit(o, true, cfg, &pushes);
+    }
+    // many unannounced PIDs in one buffer, with a change queued in the middle
+    for &k in if tier == "thorough" { &[65usize, 130, 300][..] } else { &[65usize, 130][..] } {
+        let pkts = many_pid_stream(r, k);
+        let cfg = format!("b0t0;{}:r{},i{}", k / 2, 0x20, 0x21);
+        emit(o, true, &cfg, &[concat(&pkts)]);
     }
     mixed_scenarios(tier, r, o, "C18");
     o.meta("plans", "random scripts (any PIDs, repetitions, self-targeting, inside runs, last packet of a push) + 9 targeted scripts");
@@ -1745,6 +1768,15 @@ fn gen_c07(tier: &str, r: &Rng, o: &mut Out<'_>) {
         let cfg = if i % 5 == 1 { format!("b0t0{}", rand_script(r, n, &pids_of(&pkts))) } else { "b0t0".to_string() };
         let masks: Vec<String> = (0..6).map(|_| { let mut s = String::new(); for _ in 0..((n + 3) / 4) { s.push_str(&format!("{:x}", r.below(16))); } s }).collect();
         o.d(&format!("cuts {} {} {}", cfg, hex(&concat(&pkts)), masks.join(",")));
+    }
+    // many unannounced PIDs: one push, one packet per push, a few random cuttings
+    for &k in if thorough { &[33usize, 64, 65, 66, 130, 257, 300, 1000][..] } else { &[65usize, 66, 130, 300][..] } {
+        let pkts = many_pid_stream(r, k);
+        let n = pkts.len();
+        let digits = (n + 3) / 4;
+        let mut masks: Vec<String> = vec!["0".repeat(digits), "f".repeat(digits)];
+        for _ in 0..3 { let mut s = String::new(); for _ in 0..digits { s.push_str(&format!("{:x}", if r.chance(1, 8) { r.below(16) } else { 0 })); } masks.push(s); }
+        o.d(&format!("cuts b0t0 {} {}", hex(&concat(&pkts)), masks.join(",")));
     }
     gen_construct_queues(tier, r, o);
     o.meta("exhaustive", &format!("all 2^(n-1) chunkings of {} streams with n <= {}", nstreams, maxn));
